@@ -41,6 +41,9 @@ package trustedproxy
 //@   assert at call net.ParseCIDR#1@902cb37b.1: callarg0 == ipAddr && contains(ipAddr, "/")
 //@   assert at call net.ParseIP#1@0a91c71f.1: callarg0 == ipAddr && !contains(ipAddr, "/")
 
+// "Unless the address of the directly connected peer is listed in trusted_proxies": a peer whose
+// address cannot be determined (net.ParseIP yields nil: unix domain socket, IPv6 zone) is listed
+// nowhere - the headers are kept only for a peer with an address (last clause; ghost log pip = net.ParseIP).
 // the middleware: untrusted peer => every listed header is deleted before the next handler runs;
 // trusted peer => the headers are passed on untouched
 //@ func New$1$1
@@ -52,3 +55,4 @@ package trustedproxy
 //@   assert at call Handler_.ServeHTTP#1@d2507bcf.1: tpc.ret0[tpc.n-1] || hdel.n == old(hdel.n) + len(untrustedHeader)
 //@   loop 0 invariant idx + 1 <= len(untrustedHeader) && hdel.n == old(hdel.n) + idx + 1 && serve.n == old(serve.n) && tpc.n == old(tpc.n) + 1
 //@   loop 0 invariant forall k int :: old(hdel.n) <= k && k < hdel.n ==> hdel.arg0[k] == old(req.Header) && hdel.arg1[k] == before(untrustedHeader[k - old(hdel.n)])
+//@   ensures hdel.n == old(hdel.n) ==> pip.n == old(pip.n) + 1 && len(pip.ret0[old(pip.n)]) != 0
